@@ -148,10 +148,50 @@ def frozen_clock(instant=1700000000.0):
 
 
 # ----------------------------------------------------------------------------------------- fresh processes / hash seeds
-def fresh_process(script_args, hashseed, timeout=300, stdin=None):
-    """run `python tools/treepy.py REPO <script> args` in a fresh interpreter with the given PYTHONHASHSEED; returns stdout bytes"""
+def fresh_process(script_args, hashseed, timeout=300, stdin=None, optimize=0, logging_level=None):
+    """run `python tools/treepy.py REPO <script> args` in a fresh interpreter with the given PYTHONHASHSEED; returns stdout bytes.
+    optimize: interpreter optimisation level (python -O / -OO, through PYTHONOPTIMIZE); logging_level: the embedding application has
+    configured the root logger at that level before the library is imported (scripts honour VERIF_LOGGING, see process_environment())"""
     env = dict(os.environ, PYTHONHASHSEED=str(hashseed), PYTHONDONTWRITEBYTECODE='1', PYTHONWARNINGS='ignore',
                VERIF_REPO=boot.REPO, OMP_NUM_THREADS='1', OPENBLAS_NUM_THREADS='1')
+    env.pop('PYTHONOPTIMIZE', None)
+    env.pop('VERIF_LOGGING', None)
+    if optimize:
+        env['PYTHONOPTIMIZE'] = str(optimize)
+    if logging_level:
+        env['VERIF_LOGGING'] = logging_level
     p = subprocess.run([sys.executable, '-W', 'ignore', os.path.join(boot.VERIF, 'tools', 'treepy.py'), boot.REPO] + list(script_args),
                        capture_output=True, timeout=timeout, env=env, input=stdin)
     return p.returncode, p.stdout, p.stderr
+
+
+def process_environment():
+    """called first thing by fresh-process scripts: applies the part of the process environment that is not an interpreter option"""
+    lv = os.environ.get('VERIF_LOGGING')
+    if lv:
+        import logging
+        logging.basicConfig(level=getattr(logging, lv), stream=open(os.devnull, 'w'))
+    return dict(optimize=sys.flags.optimize, logging=lv)
+
+
+# ----------------------------------------------------------------------------------------- process-wide state the library must leave alone
+def global_state():
+    """a snapshot of interpreter / numpy state shared by everything in the process; a library call that changes it changes the behaviour
+    of unrelated code that runs afterwards (history dependence)"""
+    import numpy, decimal, locale, logging, warnings
+    return dict(numpy_errstate=sorted(numpy.geterr().items()), numpy_errcall=repr(numpy.geterrcall()),
+                numpy_printoptions=sorted((k, repr(v)) for k, v in numpy.get_printoptions().items()),
+                recursion_limit=sys.getrecursionlimit(), cwd=os.getcwd(), decimal_prec=decimal.getcontext().prec,
+                decimal_rounding=decimal.getcontext().rounding, locale=repr(locale.getlocale()), root_log_level=logging.getLogger().level,
+                log_disable=logging.root.manager.disable, stdout=id(sys.stdout), stderr=id(sys.stderr),
+                umask=_umask(), float_repr=sys.float_repr_style, int_max_str_digits=getattr(sys, 'get_int_max_str_digits', lambda: 0)())
+
+
+def _umask():
+    m = os.umask(0)
+    os.umask(m)
+    return m
+
+
+def global_state_diff(a, b):
+    return ['%s: %r -> %r' % (k, a[k], b[k]) for k in sorted(a) if a[k] != b[k]]
